@@ -29,6 +29,7 @@ theorem okVal_of_lit {v : Spec.Val} {v' : TraceSpec.Val} (hl : litOk v = true) (
   | f64 b => simp [encVal] at he
   | bool b => simp [encVal] at he; subst he; rfl
   | unit => simp [encVal] at he; subst he; rfl
+  | enum t k fs => simp [encVal] at he
 
 macro "inv" h:ident : tactic => `(tactic|
   simp only [lowerE, lowerBlock, lowerArgs, shortCircuit, Option.bind_eq_bind, Option.bind_eq_some_iff, Option.pure_def,
